@@ -585,7 +585,7 @@ func (c *converter) deferExpansion(value string) string {
 }
 
 func (c *converter) sliceEvaluationString(name string, index string) string {
-	return fmt.Sprintf(`$(eval "echo \${%s[%s]}")`, name, index)
+	return fmt.Sprintf(`$(eval "echo \"\${%s[%s]}\"")`, name, index)
 }
 
 func (c *converter) sliceLenString(name string) string {
